@@ -11,7 +11,7 @@
    The model is faithful to the code WITH the fix F3 (every 1xx suppresses the
    body); the no-body set is read from gen/Gen.v. *)
 From Coq Require Import String Ascii.
-From Verif Require Import lib.Base lib.Str lib.Utf8 lib.Html.
+From Verif Require Import lib.Base lib.Str lib.Utf8 lib.Html lib.PyIntParse.
 From Verif Require gen.Gen.
 
 (* ------------------------------------------------------------------ *)
@@ -193,9 +193,6 @@ Definition dec_str_of_nat (n : nat) : str := uint_str (Nat.to_uint n).
 
 Inductive cset := CsUtf8 | CsLatin1 | CsAscii | CsUnknown | CsError.
 
-Definition is_ws (c : N) : bool :=
-  N.eqb c 32 || N.eqb c 9 || N.eqb c 10 || N.eqb c 13 || N.eqb c 11 || N.eqb c 12.
-
 (* s.split(t)[-1] : the text after the last occurrence of t *)
 Fixpoint after_last (fuel : nat) (t s : str) : str :=
   match fuel with
@@ -231,7 +228,7 @@ Definition charset (st : rstate) : cset :=
       | Some _ =>
           let a := after_last (length v) charset_marker v in
           let b := fst (split_once N.eqb 59%N a) in            (* .split(';')[0] *)
-          cset_of_name (strip_set is_ws b)
+          cset_of_name (strip_set is_py_space b)
       end
   | Some vs =>                                                (* a list: 'charset=' in list *)
       if existsb (str_eqb charset_marker) vs then CsError     (* list has no .split *)
@@ -248,6 +245,22 @@ Definition encode_cs (c : cset) (s : str) : option (list N) :=
 Definition encode (st : rstate) (s : str) : option (list N) := encode_cs (charset st) s.
 
 (* ---- BaseResponse.headerlist (response.py:149) ---- *)
+
+(* str.title() on ASCII letters (header names are ASCII tokens; other characters count as uncased) *)
+Definition is_ascii_alpha (c : N) : bool :=
+  (N.leb 65 c && N.leb c 90) || (N.leb 97 c && N.leb c 122).
+Fixpoint title_go (prev_cased : bool) (s : str) : str :=
+  match s with
+  | [] => []
+  | c :: r => if is_ascii_alpha c
+              then (if prev_cased then ascii_lower c else ascii_upper c) :: title_go true r
+              else c :: title_go false r
+  end.
+Definition title (s : str) : str := title_go false s.
+
+(* h[0] not in bad_headers  /  h[0].title() not in bad_headers — which one is read from the source *)
+Definition is_bad (bad : list str) (name : str) : bool :=
+  existsb (str_eqb (if Gen.headerlist_blacklist_case_sensitive then name else title name)) bad.
 
 Definition bad_headers_for (code : Z) : option (list str) :=
   match find (fun p => Z.eqb (fst p) code) Gen.bad_headers with
@@ -289,7 +302,7 @@ Fixpoint cookie_headers (j : jar) : option (list (str * str)) :=
 Definition headerlist (st : rstate) : option (list (str * str)) :=
   let '(hs, need_ctype) :=
     match bad_headers_for (s_code st) with
-    | Some bad => (filter (fun kv => negb (existsb (str_eqb (fst kv)) bad)) (s_hs st), false)
+    | Some bad => (filter (fun kv => negb (is_bad bad (fst kv))) (s_hs st), false)
     | None => (s_hs st, negb (h_mem n_content_type (s_hs st)))
     end in
   match flatten_headers hs, cookie_headers (s_cs st) with
@@ -658,14 +671,9 @@ Inductive sarg := SCode (c : Z) | SLine (s : str).
 Inductive sres :=
 | SOk (code : Z) (line : str)
 | SValueError
-| SUnmodelled.     (* first token is not plain ASCII digits: int() of it is not modelled *)
+| SIndexError      (* status.split()[0] on a string of blanks *)
+| SUnmodelled.     (* the first token has a non-ASCII character: int() of non-ASCII digits is not modelled *)
 
-Definition is_digit (c : N) : bool := N.leb 48 c && N.leb c 57.
-Fixpoint digits_val (acc : Z) (s : str) : Z :=
-  match s with
-  | [] => acc
-  | c :: t => digits_val (10 * acc + Z.of_N (c - 48)) t
-  end.
 Fixpoint take_while (f : N -> bool) (s : str) : str :=
   match s with
   | [] => []
@@ -688,12 +696,17 @@ Definition set_status (a : sarg) : sres :=
   | SLine s =>
       if negb (contains_char N.eqb 32%N s) then SValueError     (* no reason phrase *)
       else
-        let s' := strip_set is_ws s in
-        let tok := take_while (fun c => negb (is_ws c)) s' in
-        if forallb is_digit tok && negb (match tok with [] => true | _ => false end) then
-          let c := digits_val 0 tok in
-          if Z.leb 100 c && Z.leb c 999 then SOk c s' else SValueError
-        else SUnmodelled
+        let s' := strip_set is_py_space s in                     (* status.strip() *)
+        let tok := take_while (fun c => negb (is_py_space c)) s' in   (* status.split()[0] *)
+        match tok with
+        | [] => SIndexError
+        | _ =>
+          if negb (forallb (fun c => N.ltb c 128) tok) then SUnmodelled
+          else match py_int_dec tok with                         (* int(...) *)
+               | None => SValueError
+               | Some c => if Z.leb 100 c && Z.leb c 999 then SOk c s' else SValueError
+               end
+        end
   end.
 End Status.
 
@@ -887,6 +900,7 @@ Definition enc_sres (r : sres) : list Z :=
   | SOk c l => 0%Z :: c :: enc_str l
   | SValueError => [1%Z]
   | SUnmodelled => [2%Z]
+  | SIndexError => [3%Z]
   end.
 
 (* input of kind 0 (a request):
